@@ -326,6 +326,40 @@ type bufferedReadSeeker struct {
 	buf       []byte
 	writeHead int
 	readHead  int
+
+	// The HTTP transport may still be reading the body of a failed attempt (in
+	// its own goroutine) when the next one starts: mu serialises the attempts,
+	// and gen identifies the only attempt that is still allowed to read.
+	mu  sync.Mutex
+	gen int
+}
+
+// attemptReader is the request body of a single upload attempt.
+type attemptReader struct {
+	b   *bufferedReadSeeker
+	gen int
+}
+
+func (a attemptReader) Read(p []byte) (int, error) {
+	a.b.mu.Lock()
+	defer a.b.mu.Unlock()
+	if a.gen != a.b.gen {
+		return 0, errors.New("upload attempt superseded by a retry")
+	}
+	return a.b.Read(p)
+}
+
+// nextAttempt invalidates the reader of the previous attempt (after waiting for
+// its in-flight Read, so the bytes it consumed are retained for the replay),
+// and returns a reader that replays the stream from its first byte.
+func (b *bufferedReadSeeker) nextAttempt() (io.Reader, error) {
+	b.mu.Lock()
+	defer b.mu.Unlock()
+	b.gen++
+	if _, err := b.Seek(0, io.SeekStart); err != nil {
+		return nil, err
+	}
+	return attemptReader{b, b.gen}, nil
 }
 
 func (b *bufferedReadSeeker) Read(p []byte) (int, error) {
@@ -356,7 +390,7 @@ func (b *bufferedReadSeeker) Seek(offset int64, whence int) (int64, error) {
 
 func postResponseWithRetries(client *http.Client, proxyURL, backendID, requestID string, proxyReader io.Reader) error {
 	proxyReadSeeker := newBufferedReadSeeker(proxyReader, readResponseBufSize)
-	proxyReq, err := http.NewRequest(http.MethodPost, proxyURL, proxyReadSeeker)
+	proxyReq, err := http.NewRequest(http.MethodPost, proxyURL, nil)
 	if err != nil {
 		return err
 	}
@@ -365,17 +399,18 @@ func postResponseWithRetries(client *http.Client, proxyURL, backendID, requestID
 	proxyReq.Header.Set("Content-Type", "text/plain")
 	var proxyResp *http.Response
 	for retryCount := 0; retryCount <= maxWriteResponseRetryCount; retryCount++ {
-		if proxyResp, err = client.Do(proxyReq); err != nil {
-			if _, seekErr := proxyReadSeeker.Seek(0, io.SeekStart); seekErr != nil {
-				return err
-			}
+		body, seekErr := proxyReadSeeker.nextAttempt()
+		if seekErr != nil {
+			return err
+		}
+		// The transport may hold on to the request after client.Do returns.
+		attemptReq := proxyReq.Clone(proxyReq.Context())
+		attemptReq.Body = io.NopCloser(body)
+		if proxyResp, err = client.Do(attemptReq); err != nil {
 			continue
 		}
 		proxyResp.Body.Close()
 		if 500 <= proxyResp.StatusCode && proxyResp.StatusCode < 600 {
-			if _, seekErr := proxyReadSeeker.Seek(0, io.SeekStart); seekErr != nil {
-				return err
-			}
 			continue
 		}
 		return nil
